@@ -313,7 +313,12 @@ class Gen:
             u = self.u2(1)
             ks = list(range(self.rng.randint(2, 4)))
             e = self.u2(1)
-            lines = [ind + f"for k in range({len(ks)}):", ind + f"    if {u[1]} == k:",
+            # conditions are either one-hot (u == k) or OVERLAPPING (u < k + 1: several iterations would match, the
+            # first one in iteration order wins)
+            overlap = self.rng.random() < 0.5
+            cpy = (lambda: f"{u[1]} < k + 1") if overlap else (lambda: f"{u[1]} == k")
+            ccq = (lambda k: f"(XLt {u[2]} (XConst {k + 1}%Z))") if overlap else (lambda k: f"(XEq {u[2]} (XConst {k}%Z))")
+            lines = [ind + f"for k in range({len(ks)}):", ind + f"    if {cpy()}:",
                      ind + f"        self.r0 <<= {e[1]} + k", ind + "        break"]
             els = "RSkip"
             if self.rng.random() < 0.5:
@@ -322,7 +327,7 @@ class Gen:
             self.assigned_vars = set(saved)
             res = els
             for k in reversed(ks):
-                res = f"(RIf (XEq {u[2]} (XConst {k}%Z)) (RAssign (TSig 2) (XAdd 2%N {e[2]} (XConst {k}%Z))) {res})"
+                res = f"(RIf {ccq(k)} (RAssign (TSig 2) (XAdd 2%N {e[2]} (XConst {k}%Z))) {res})"
             return lines, res
         # an element reference keeps the index it was taken with (run-time index captured at access time)
         if self.mode == "clocked" and self.rng.random() < 0.35:
@@ -339,14 +344,15 @@ class Gen:
             return lines, st
         # helper with returns in branches
         if self.rng.random() < 0.5:
-            h = self.rng.choice(["h_for", "h_forelse", "h_forsame"])
+            h = self.rng.choice(["h_for", "h_forelse", "h_forsame", "h_forlt", "h_forlt"])
             u, p, q = self.u2(1), self.u2(1), self.u2(1)
             if h not in self.helpers:
                 self.helpers.append(h)
             res = q[2]
             for k in (2, 1, 0):
                 val = p[2] if h == "h_forsame" else f"(XAdd 2%N {p[2]} (XConst {k}%Z))"
-                res = f"(XIte (XEq {u[2]} (XConst {k}%Z)) {val} {res})"
+                cnd = f"(XLt {u[2]} (XConst {k + 1}%Z))" if h == "h_forlt" else f"(XEq {u[2]} (XConst {k}%Z))"
+                res = f"(XIte {cnd} {val} {res})"
             return [ind + f"self.r0 <<= {h}({u[1]}, {p[1]}, {q[1]})"], f"(RAssign (TSig 2) {res})"
         if self.rng.random() < 0.5:
             c1, c2 = self.cond(), self.cond()
@@ -403,6 +409,8 @@ HELPERS = {
                   "                return q", "            return p"],
     "h_elifret": ["        def h_elifret(c1, c2, p, q):", "            if c1:", "                r = p", "            elif c2:",
                   "                r = p + 1", "            else:", "                return q", "            return r + 1"],
+    "h_forlt": ["        def h_forlt(u, p, q):", "            for k in range(3):", "                if u < k + 1:",
+                "                    return p + k", "            return q"],
     "h_forsame": ["        def h_forsame(u, p, q):", "            for k in range(3):", "                if u == k:",
                   "                    return p", "            return q"],
     "h_forelse": ["        def h_forelse(u, p, q):", "            for k in range(3):", "                if u == k:",
@@ -468,6 +476,11 @@ CORPUS = [
      "(RSeq (RIf (XIn 0) (RAssign (TPush 1) (XIn 1)) RSkip) (RAssign (TSig 0) (XSig 1)))"),
     ("clocked+h_for", ["self.r0 <<= h_for(self.x, self.i, self.r0)"],
      "(RAssign (TSig 2) (XIte (XEq (XIn 2) (XConst 0%Z)) (XAdd 2%N (XIn 3) (XConst 0%Z)) (XIte (XEq (XIn 2) (XConst 1%Z)) (XAdd 2%N (XIn 3) (XConst 1%Z)) (XIte (XEq (XIn 2) (XConst 2%Z)) (XAdd 2%N (XIn 3) (XConst 2%Z)) (XSig 2)))))"),
+    # overlapping conditions in for-break / for-return chains: the FIRST matching iteration wins
+    ("clocked+h_forlt", ["self.r0 <<= h_forlt(self.x, self.i, self.r0)"],
+     "(RAssign (TSig 2) (XIte (XLt (XIn 2) (XConst 1%Z)) (XAdd 2%N (XIn 3) (XConst 0%Z)) (XIte (XLt (XIn 2) (XConst 2%Z)) (XAdd 2%N (XIn 3) (XConst 1%Z)) (XIte (XLt (XIn 2) (XConst 3%Z)) (XAdd 2%N (XIn 3) (XConst 2%Z)) (XSig 2)))))"),
+    ("clocked", ["for k in range(3):", "    if self.x < k + 1:", "        self.r0 <<= self.i + k", "        break", "else:", "    self.r0 <<= 3"],
+     "(RIf (XLt (XIn 2) (XConst 1%Z)) (RAssign (TSig 2) (XAdd 2%N (XIn 3) (XConst 0%Z))) (RIf (XLt (XIn 2) (XConst 2%Z)) (RAssign (TSig 2) (XAdd 2%N (XIn 3) (XConst 1%Z))) (RIf (XLt (XIn 2) (XConst 3%Z)) (RAssign (TSig 2) (XAdd 2%N (XIn 3) (XConst 2%Z))) (RAssign (TSig 2) (XConst 3%Z)))))"),
     ("clocked+h_elseret", ["self.r0 <<= h_elseret(self.a, self.x, self.i)"],
      "(RAssign (TSig 2) (XIte (XIn 0) (XIn 2) (XIn 3)))"),
     ("clocked+h_elifret", ["self.r0 <<= h_elifret(self.a, self.b, self.x, self.i)"],
